@@ -286,7 +286,13 @@ func (g *gen) normalCommit(b, tick int) bool {
 	used := map[int]bool{}
 	for k := 1 + rng.Intn(3); k > 0; k-- {
 		f := rng.Intn(4)
+		if rng.Intn(4) == 0 {
+			f = rng.Intn(8) // names f4..f7 come into being through renames only
+		}
 		if used[f] {
+			continue
+		}
+		if _, there := g.lens[b][f]; !there && f >= 4 {
 			continue
 		}
 		used[f] = true
@@ -301,6 +307,21 @@ func (g *gen) normalCommit(b, tick int) bool {
 		case r == 0:
 			chs = append(chs, change{op: fmt.Sprintf("rm %d %d %d", b, f, cur), ch: &object.Change{From: entry(name, blob(rng, blobCache, cur))}})
 			delete(g.lens[b], f)
+		case r == 1 && !used[(f+4)%8]:
+			// a rename reported together with an edit (f0 <-> f4, f1 <-> f5 ...); the new name may be in use
+			to := (f + 4) % 8
+			used[to] = true
+			sc, dd, nl := g.script(cur, -1)
+			if sc == "" {
+				sc = "-"
+			}
+			toName := fmt.Sprintf("f%d", to)
+			chs = append(chs, change{op: fmt.Sprintf("ren %d %d %d %d %d %s", b, f, to, cur, nl, sc), name: toName,
+				ch:   &object.Change{From: entry(name, blob(rng, blobCache, cur)), To: entry(toName, blob(rng, blobCache, nl))},
+				diff: &items.FileDiffData{OldLinesOfCode: cur, NewLinesOfCode: nl, Diffs: dd}})
+			delete(g.lens[b], f)
+			g.lens[b][to] = nl
+			g.stats["rename-with-edit"]++
 		default:
 			sc, dd, nl := g.script(cur, -1)
 			if sc == "" {
@@ -392,11 +413,11 @@ func main() {
 				author = rng.Intn(pn)
 			}
 			target := map[int]int{}
-			for f := 0; f < 4; f++ {
+			for f := 0; f < 8; f++ {
 				target[f] = rng.Intn(7)
 			}
 			skipFile := map[int]bool{}
-			for f := 0; f < 4; f++ {
+			for f := 0; f < 8; f++ {
 				skipFile[f] = rng.Intn(4) == 0
 			}
 			touchedByMerge := map[int]bool{}
@@ -405,8 +426,9 @@ func main() {
 					break
 				}
 				var chs []change
-				for f := 0; f < 4; f++ {
-					if skipFile[f] {
+				renamedTo := map[int]bool{}
+				for f := 0; f < 8; f++ {
+					if skipFile[f] || renamedTo[f] {
 						continue
 					}
 					name := fmt.Sprintf("f%d", f)
@@ -415,7 +437,23 @@ func main() {
 					if rng.Intn(30) == 0 {
 						L++ // lengths will differ between branches: File.Merge panics
 					}
+					to := f + 4
+					_, toExists := g.lens[b][to]
 					switch {
+					case exists && f < 4 && !toExists && !skipFile[to] && rng.Intn(6) == 0:
+						// against this parent the merge commit shows the file under a new name, with edits
+						touchedByMerge[f], touchedByMerge[to] = true, true
+						renamedTo[to] = true
+						L = target[to]
+						sc, dd := g.full(cur, L)
+						toName := fmt.Sprintf("f%d", to)
+						chs = append(chs, change{op: fmt.Sprintf("ren %d %d %d %d %d %s", b, f, to, cur, L, sc), name: toName,
+							ch:   &object.Change{From: entry(name, blob(rng, blobCache, cur)), To: entry(toName, blob(rng, blobCache, L))},
+							diff: &items.FileDiffData{OldLinesOfCode: cur, NewLinesOfCode: L, Diffs: dd}})
+						delete(g.lens[b], f)
+						g.lens[b][to] = L
+						stats["rename-with-edit-in-merge"]++
+					case !exists && f >= 4:
 					case !exists && rng.Intn(3) > 0:
 						touchedByMerge[f] = true
 						chs = append(chs, change{op: fmt.Sprintf("add %d %d %d", b, f, L), ch: &object.Change{To: entry(name, blob(rng, blobCache, L))}})
@@ -485,7 +523,7 @@ func main() {
 			// all lack it or all hold the same interval list (statement of theorem merge_all_identical on the real code)
 			for _, b := range all {
 				after, _, _, _ := leaves.VerifBurndownState(g.brs[b])
-				for f := 0; f < 4; f++ {
+				for f := 0; f < 8; f++ {
 					fname := fmt.Sprintf("f%d", f)
 					if !touchedByMerge[f] && fmt.Sprint(before[b][fname]) != fmt.Sprint(after[fname]) {
 						hv.Fail("merge-frame", fmt.Sprintf(`{"seed":%d,"case":%d,"branch":%d,"file":%q}`, seed, it, b, fname),
